@@ -139,8 +139,8 @@ def run(chk, args):
     chk.cov["faults_fired_by_position"] = fired
     chk.cov["faults_fired"] = summary["faults"]
     chk.cov["bytes_moved"] = summary["bytes"]
-    chk.cov["evaluations"] = len(results)
-    chk.cov["distinct_nontrivial"] = sum(1 for r in results.values() if r.get("faults", 0) > 0)
+    chk.cov["evaluations"] += len(results)
+    chk.cov["distinct_nontrivial"] += sum(1 for r in results.values() if r.get("faults", 0) > 0)
     chk.cov["rule"] = ("one evaluation = one Tunnel_Gen behaviour executed as a fault schedule on the real code and validated by TLC against "
                        "Tunnel_Trace; non-trivial = at least one fault of the schedule actually fired (cut at a byte position, stall, half-open, "
                        "refused dial)")
